@@ -549,6 +549,20 @@ def run(case, res):
         theirs.legal_ops.discard(op_)
     res.faults.hit('foreign_block_narrows_its_legal_ops')
     b = build(script, perm_seed=sched.get('perm_seed'))
+    # the user tries out a few names on one wire and settles on the original one again; whether
+    # a name is taken or refused, the design is the same design afterwards
+    cand = sorted((w for w in b.block.wirevector_set if type(w) is pyrtl.WireVector), key=lambda w: w.name)
+    if cand:
+        w0 = cand[sched.get('hash_seed', 0) % len(cand)]
+        orig_name = w0.name
+        for nm in ('clk', 'CLOCK', 'tmp_%s' % orig_name, 'x y', orig_name):
+            try:
+                w0.name = nm
+            except (pyrtl.PyrtlError, pyrtl.PyrtlInternalError):
+                res.faults.hit('rename_refused')
+        if w0.name != orig_name:
+            w0.name = orig_name
+        res.probes.hit('rename_attempts')
     try:
         b.block.sanity_check()
         pyrtl.Simulation(tracer=pyrtl.SimulationTrace('all', block=b.block), block=b.block)
@@ -682,6 +696,21 @@ def run(case, res):
     res.probes.hit('iteration_schedules', len(case['scheds']))
     res.probes.hit('distinct_iteration_orders', len(orders))
     res.log.log('iter', 'orders', len(case['scheds']), len(orders))
+    # ---- a design that is nothing but a combinational ring: no Input, no Const, no Register ----
+    rk = 2 + (sched.get('hash_seed', 0) % 4)
+    ring = pyrtl.Block()
+    with pyrtl.set_working_block(ring, no_sanity_check=True):
+        rw = [pyrtl.WireVector(1, 'ring%d' % i) for i in range(rk)]
+        for i in range(rk):
+            rw[(i + 1) % rk] <<= ~rw[i]
+        ro = pyrtl.Output(1, 'ring_o')
+        ro <<= rw[0]
+    with transforms.quiet():
+        verdict = judge(ring, bool(case.get('compiled')))
+    res.faults.hit('comb_loop_without_sources')
+    if verdict[0] == 'violation':
+        return Violation('reject_malformed', verdict[1], dict(verdict[2], ring=rk),
+                         ['fault:comb_loop_without_sources', 'where:' + verdict[2].get('where', '?')])
     # ---- negative half ------------------------------------------------------------------
     common.install_hash_seam(sched.get('hash_seed'))
     judged = []
